@@ -46,9 +46,9 @@ class El:
         if self.repeat is not None:
             a += ' tal:repeat="%s %s"' % self.repeat
         if self.content is not None:
-            a += ' tal:content="%s%s"' % ("structure " if self.content[0] else "", self.content[1])
+            a += ' tal:content="%s%s"' % ("text " if self.content[0] == "text" else "structure " if self.content[0] else "", self.content[1])
         if self.replace is not None:
-            a += ' tal:replace="%s%s"' % ("structure " if self.replace[0] else "", self.replace[1])
+            a += ' tal:replace="%s%s"' % ("text " if self.replace[0] == "text" else "structure " if self.replace[0] else "", self.replace[1])
         if self.attributes:
             a += ' tal:attributes="%s"' % "; ".join("%s %s" % (n, e) for n, e in self.attributes)
         if self.omit is not None:
@@ -356,14 +356,14 @@ def render_once(el, ctx, attrs_orig, slots=None, macros=None):
             return ""
         if v is not DEFAULT:
             tags = False
-            body = tostr(v) if structure else esc_text(tostr(v))
+            body = tostr(v) if structure is True else esc_text(tostr(v))  # the keyword `text` is the default spelled out
     elif el.content is not None:
         structure, expr = el.content
         v = top(ctx, expr, attrs_orig)
         if v is None:
             body = ""
         elif v is not DEFAULT:
-            body = tostr(v) if structure else esc_text(tostr(v))
+            body = tostr(v) if structure is True else esc_text(tostr(v))  # the keyword `text` is the default spelled out
     cur = list(el.attrs)
     if el.attributes:
         remove, new = set(), []
